@@ -3,6 +3,8 @@
   functions of the evaluator, applied to such values, only ever use the decimal functions of `Jmes.Dec`.
 -/
 import Jmes.Proofs.Equal
+import Jmes.Proofs.Refine
+import Jmes.Model.Literal
 namespace Jmes
 
 def Num.NoFloat : Num → Prop
@@ -237,5 +239,1201 @@ theorem sumDec_noFloat : ∀ (xs : List Val) (acc : Dec), (∀ x ∈ xs, x.NoFlo
         | some d => sumDec vs (acc.add d)))
   | [], _, _ => rfl
   | _ :: _, _, _ => rfl
+
+/-! ## evaluator level: every operation of the evaluator maps float-free values to float-free values -/
+
+open Val
+
+theorem Res.bind_eq_ok {α β} {x : Res α} {f : α → Res β} {b : β} :
+    (x >>= f) = Res.ok b ↔ ∃ a, x = Res.ok a ∧ f a = Res.ok b := by
+  cases x <;> simp
+
+theorem widen_eq_ok {α} (t : ATag) (xs : List Val) (fs : List (Val → Res Val)) (extra : List Cat) (r : Res α) (a : α) :
+    widen t xs fs extra r = .ok a ↔ r = .ok a := by
+  cases r <;> simp [widen]
+  split <;> simp
+
+theorem getD_nf {xs : List Val} (h : ∀ x ∈ xs, NoFloat x) (n : Nat) : NoFloat (xs.getD n .null) := by
+  rw [List.getD_eq_getElem?_getD]
+  cases hx : xs[n]? with
+  | none => simp
+  | some x => simp; exact h x (List.mem_of_getElem? hx)
+
+theorem field_nf {v : Val} (k : Bytes) (h : NoFloat v) : NoFloat (field k v) := by
+  unfold field
+  split
+  · next kvs =>
+    cases hl : objLookup k kvs with
+    | none => simp
+    | some x => simp; exact noFloat_obj.mp h k x (objLookup_mem hl)
+  · simp
+
+theorem index_nf {v w : Val} {i : Int} (h : NoFloat v) (hw : index v i = .ok w) : NoFloat w := by
+  cases v with
+  | arr t xs =>
+    simp only [index] at hw
+    generalize (if i < 0 then i + (xs.length : Int) else i) = j at hw
+    by_cases h1 : j < 0 ∨ j ≥ (xs.length : Int)
+    · simp only [h1, if_true, Res.ok.injEq] at hw; subst hw; simp
+    · simp only [h1, if_false] at hw
+      by_cases h2 : enum2 t xs = true
+      · simp [h2] at hw
+      · simp only [h2, if_false, Res.ok.injEq, Bool.false_eq_true] at hw
+        subst hw; exact getD_nf (noFloat_arr.mp h) _
+  | _ => simp only [index, Res.ok.injEq] at hw; subst hw; simp
+
+theorem pickStep_nf {xs : List Val} (h : ∀ x ∈ xs, NoFloat x) (step : Int) : ∀ (n : Nat) (start : Int),
+    ∀ y ∈ pickStep xs start step n, NoFloat y
+  | 0, _ => by simp [pickStep]
+  | n + 1, start => by
+    intro y hy
+    simp only [pickStep, List.mem_cons] at hy
+    rcases hy with rfl | hy
+    · exact getD_nf h _
+    · exact pickStep_nf h step n _ y hy
+
+theorem slice_nf {v w : Val} {a b : Int} (h : NoFloat v) (hw : slice v a b = .ok w) : NoFloat w := by
+  unfold slice at hw
+  split at hw
+  · next t xs =>
+    split at hw
+    · cases hw; simp [noFloat_arr]
+    · split at hw
+      · cases hw; simp [noFloat_arr]
+      · split at hw
+        · simp at hw
+        · cases hw
+          rw [noFloat_arr]
+          intro x hx
+          exact noFloat_arr.mp h x (List.mem_of_mem_drop (List.mem_of_mem_take hx))
+  · split at hw <;> (cases hw; simp)
+  · cases hw; simp
+
+theorem sliceStep_nf {v w : Val} {a b s : Int} (h : NoFloat v) (hw : sliceStep v a b s = .ok w) : NoFloat w := by
+  unfold sliceStep at hw
+  split at hw
+  · next t xs =>
+    split at hw
+    · cases hw; simp [noFloat_arr]
+    · split at hw
+      · simp at hw
+      · cases hw
+        rw [noFloat_arr]
+        exact pickStep_nf (noFloat_arr.mp h) _ _ _
+  · simp only at hw
+    split at hw
+    · cases hw; simp
+    · split at hw <;> (cases hw; simp)
+  · cases hw; simp
+
+theorem pruneArray_nf {v : Val} (h : NoFloat v) : NoFloat (pruneArray v) := by
+  unfold pruneArray
+  split
+  · next t xs =>
+    split
+    · rw [noFloat_arr]; intro x hx; exact noFloat_arr.mp h x (List.mem_filter.mp hx).1
+    · exact h
+  · simp
+
+
+/-- `f` maps float-free values to float-free values -/
+def NFfun (f : Val → Res Val) : Prop := ∀ x, NoFloat x → ∀ v, f x = .ok v → NoFloat v
+
+theorem mapPrune_nf {f : Val → Res Val} (hf : NFfun f) : ∀ {xs r : List Val}, (∀ x ∈ xs, NoFloat x) →
+    mapPrune f xs = .ok r → ∀ y ∈ r, NoFloat y
+  | [], r, _, h => by simp [mapPrune] at h; subst h; simp
+  | x :: xs, r, hx, h => by
+    simp only [mapPrune, Res.bind_eq_ok, Res.pure_eq, Res.ok.injEq] at h
+    obtain ⟨p, hp, rest, hrest, hr⟩ := h
+    have ih := mapPrune_nf hf (fun y hy => hx y (List.mem_cons_of_mem _ hy)) hrest
+    have hpn := hf x (hx x (List.mem_cons_self ..)) p hp
+    subst hr
+    intro y hy
+    split at hy
+    · exact ih y hy
+    · rcases List.mem_cons.mp hy with rfl | hy
+      · exact hpn
+      · exact ih y hy
+
+theorem mapAll_nf {f : Val → Res Val} (hf : NFfun f) : ∀ {xs r : List Val}, (∀ x ∈ xs, NoFloat x) →
+    mapAll f xs = .ok r → ∀ y ∈ r, NoFloat y
+  | [], r, _, h => by simp [mapAll] at h; subst h; simp
+  | x :: xs, r, hx, h => by
+    simp only [mapAll, Res.bind_eq_ok, Res.pure_eq, Res.ok.injEq] at h
+    obtain ⟨p, hp, rest, hrest, hr⟩ := h
+    have ih := mapAll_nf hf (fun y hy => hx y (List.mem_cons_of_mem _ hy)) hrest
+    have hpn := hf x (hx x (List.mem_cons_self ..)) p hp
+    subst hr
+    intro y hy
+    rcases List.mem_cons.mp hy with rfl | hy
+    · exact hpn
+    · exact ih y hy
+
+theorem filterMapPrune_nf {c f : Val → Res Val} (hf : NFfun f) : ∀ {xs r : List Val}, (∀ x ∈ xs, NoFloat x) →
+    filterMapPrune c f xs = .ok r → ∀ y ∈ r, NoFloat y
+  | [], r, _, h => by simp [filterMapPrune] at h; subst h; simp
+  | x :: xs, r, hx, h => by
+    simp only [filterMapPrune, Res.bind_eq_ok] at h
+    obtain ⟨b, hb, h⟩ := h
+    have hx' : ∀ y ∈ xs, NoFloat y := fun y hy => hx y (List.mem_cons_of_mem _ hy)
+    split at h
+    · simp only [Res.bind_eq_ok, Res.pure_eq, Res.ok.injEq] at h
+      obtain ⟨p, hp, rest, hrest, hr⟩ := h
+      have ih := filterMapPrune_nf hf hx' hrest
+      have hpn := hf x (hx x (List.mem_cons_self ..)) p hp
+      subst hr
+      intro y hy
+      split at hy
+      · exact ih y hy
+      · rcases List.mem_cons.mp hy with rfl | hy
+        · exact hpn
+        · exact ih y hy
+    · exact filterMapPrune_nf hf hx' h
+
+theorem projectArray_nf {f : Val → Res Val} (hf : NFfun f) {v w : Val} (h : NoFloat v)
+    (hw : projectArray f v = .ok w) : NoFloat w := by
+  unfold projectArray at hw
+  split at hw
+  · next t xs =>
+    rw [widen_eq_ok] at hw
+    simp only [Res.bind_eq_ok, Res.pure_eq, Res.ok.injEq] at hw
+    obtain ⟨r, hr, rfl⟩ := hw
+    exact noFloat_arr.mpr (mapPrune_nf hf (noFloat_arr.mp h) hr)
+  · cases hw; simp
+
+theorem mapArray_nf {f : Val → Res Val} (hf : NFfun f) {v w : Val} (h : NoFloat v)
+    (hw : mapArray f v = .ok w) : NoFloat w := by
+  unfold mapArray at hw
+  split at hw
+  · next t xs =>
+    rw [widen_eq_ok] at hw
+    simp only [Res.bind_eq_ok, Res.pure_eq, Res.ok.injEq] at hw
+    obtain ⟨r, hr, rfl⟩ := hw
+    exact noFloat_arr.mpr (mapAll_nf hf (noFloat_arr.mp h) hr)
+  · simp [errType] at hw
+
+theorem filterAndProjectArray_nf {c f : Val → Res Val} (hf : NFfun f) {v w : Val} (h : NoFloat v)
+    (hw : filterAndProjectArray c f v = .ok w) : NoFloat w := by
+  unfold filterAndProjectArray at hw
+  split at hw
+  · next t xs =>
+    rw [widen_eq_ok] at hw
+    simp only [Res.bind_eq_ok, Res.pure_eq, Res.ok.injEq] at hw
+    obtain ⟨r, hr, rfl⟩ := hw
+    exact noFloat_arr.mpr (filterMapPrune_nf hf (noFloat_arr.mp h) hr)
+  · cases hw; simp
+
+theorem flattenForProject_nf : ∀ {xs : List Val}, (∀ x ∈ xs, NoFloat x) → ∀ y ∈ flattenForProject xs, NoFloat y
+  | [], _ => by simp [flattenForProject]
+  | x :: xs, hx => by
+    have ih := flattenForProject_nf (fun y hy => hx y (List.mem_cons_of_mem _ hy))
+    have h0 := hx x (List.mem_cons_self ..)
+    intro y hy
+    cases x with
+    | arr t ys =>
+      simp only [flattenForProject, List.mem_append] at hy
+      rcases hy with hy | hy
+      · exact noFloat_arr.mp h0 y hy
+      · exact ih y hy
+    | _ =>
+      simp only [flattenForProject, List.mem_cons] at hy
+      rcases hy with rfl | hy
+      · exact h0
+      · exact ih y hy
+
+theorem flattenAndProjectArray_nf {f : Val → Res Val} (hf : NFfun f) {v w : Val} (h : NoFloat v)
+    (hw : flattenAndProjectArray f v = .ok w) : NoFloat w := by
+  unfold flattenAndProjectArray at hw
+  split at hw
+  · next t xs =>
+    rw [widen_eq_ok] at hw
+    simp only [Res.bind_eq_ok, Res.pure_eq, Res.ok.injEq] at hw
+    obtain ⟨r, hr, rfl⟩ := hw
+    exact noFloat_arr.mpr (mapPrune_nf hf (flattenForProject_nf (noFloat_arr.mp h)) hr)
+  · cases hw; simp
+
+theorem obj_values_nf {kvs : List (Bytes × Val)} (h : NoFloat (.obj kvs)) : ∀ x ∈ kvs.map Prod.snd, NoFloat x := by
+  intro x hx
+  obtain ⟨⟨k, x'⟩, hm, rfl⟩ := List.mem_map.mp hx
+  exact noFloat_obj.mp h k x' hm
+
+theorem projectObject_nf {f : Val → Res Val} (hf : NFfun f) {v w : Val} (h : NoFloat v)
+    (hw : projectObject f v = .ok w) : NoFloat w := by
+  unfold projectObject at hw
+  split at hw
+  · next kvs =>
+    simp only at hw
+    rw [widen_eq_ok] at hw
+    simp only [Res.bind_eq_ok, Res.pure_eq, Res.ok.injEq] at hw
+    obtain ⟨r, hr, rfl⟩ := hw
+    exact noFloat_arr.mpr (mapPrune_nf hf (obj_values_nf h) hr)
+  · cases hw; simp
+
+
+/-! groups -/
+def GroupsNF (gs : List (Bytes × List Val)) : Prop := ∀ k g, (k, g) ∈ gs → ∀ x ∈ g, NoFloat x
+
+theorem groupInsert_nf {s : Bytes} {v : Val} (hv : NoFloat v) : ∀ {gs : List (Bytes × List Val)}, GroupsNF gs →
+    GroupsNF (groupInsert s v gs)
+  | [], _ => by
+    intro k g hm x hx
+    simp only [groupInsert, List.mem_singleton, Prod.mk.injEq] at hm
+    obtain ⟨_, rfl⟩ := hm
+    simp at hx; subst hx; exact hv
+  | (k', g') :: rest, h => by
+    have hrest : GroupsNF rest := fun k g hm => h k g (List.mem_cons_of_mem _ hm)
+    have hhead := h k' g' (List.mem_cons_self ..)
+    intro k g hm x hx
+    simp only [groupInsert] at hm
+    split at hm
+    · rcases List.mem_cons.mp hm with e | hm
+      · cases e
+        rcases List.mem_append.mp hx with hx | hx
+        · exact hhead x hx
+        · simp at hx; subst hx; exact hv
+      · exact hrest k g hm x hx
+    · split at hm
+      · rcases List.mem_cons.mp hm with e | hm
+        · cases e; simp at hx; subst hx; exact hv
+        · exact h k g hm x hx
+      · rcases List.mem_cons.mp hm with e | hm
+        · cases e; exact hhead x hx
+        · exact groupInsert_nf hv hrest k g hm x hx
+
+theorem groupLoop_nf {f : Val → Res Val} : ∀ {xs : List Val} {acc r : List (Bytes × List Val)},
+    (∀ x ∈ xs, NoFloat x) → GroupsNF acc → groupLoop f xs acc = .ok r → GroupsNF r
+  | [], acc, r, _, hacc, h => by simp [groupLoop] at h; subst h; exact hacc
+  | x :: xs, acc, r, hx, hacc, h => by
+    simp only [groupLoop, Res.bind_eq_ok] at h
+    obtain ⟨rv, _, h⟩ := h
+    split at h
+    · exact groupLoop_nf (fun y hy => hx y (List.mem_cons_of_mem _ hy))
+        (groupInsert_nf (hx x (List.mem_cons_self ..)) hacc) h
+    · simp [errType] at h
+
+theorem groupBy_nf {f : Val → Res Val} {v w : Val} (h : NoFloat v) (hw : groupBy f v = .ok w) : NoFloat w := by
+  unfold groupBy at hw
+  split at hw
+  · next t xs =>
+    split at hw
+    · cases hw; simp
+    · rw [widen_eq_ok] at hw
+      simp only [Res.bind_eq_ok, Res.pure_eq, Res.ok.injEq] at hw
+      obtain ⟨gs, hgs, rfl⟩ := hw
+      have := groupLoop_nf (noFloat_arr.mp h) (fun _ _ hm => by simp at hm) hgs
+      rw [noFloat_obj]
+      intro k x hm
+      obtain ⟨⟨k', g⟩, hm', e⟩ := List.mem_map.mp hm
+      cases e
+      exact noFloat_arr.mpr (this k' g hm')
+  · simp [errType] at hw
+
+/-! max_by / min_by / sort_by -/
+theorem pickBy_mem (better : Key → Key → Bool) : ∀ (l : List (Val × Key)) (best : Val) (bk : Key),
+    pickBy better best bk l = best ∨ ∃ p ∈ l, pickBy better best bk l = p.1
+  | [], best, bk => Or.inl rfl
+  | (v, k) :: rest, best, bk => by
+    simp only [pickBy]
+    split
+    · rcases pickBy_mem better rest v k with h | ⟨p, hp, h⟩
+      · exact Or.inr ⟨(v, k), List.mem_cons_self .., h⟩
+      · exact Or.inr ⟨p, List.mem_cons_of_mem _ hp, h⟩
+    · rcases pickBy_mem better rest best bk with h | ⟨p, hp, h⟩
+      · exact Or.inl h
+      · exact Or.inr ⟨p, List.mem_cons_of_mem _ hp, h⟩
+
+theorem arrayPickBy_nf {better : Key → Key → Bool} {f : Val → Res Val} {v w : Val} (h : NoFloat v)
+    (hw : arrayPickBy better f v = .ok w) : NoFloat w := by
+  unfold arrayPickBy at hw
+  split at hw
+  · next t xs =>
+    split at hw
+    · cases hw; simp
+    · next x0 rest =>
+      rw [widen_eq_ok] at hw
+      simp only [Res.bind_eq_ok] at hw
+      obtain ⟨ks, _, hw⟩ := hw
+      split at hw
+      · cases hw; simp
+      · next k0 krest _ =>
+        split at hw
+        · simp at hw
+        · cases hw
+          have hall := noFloat_arr.mp h
+          rcases pickBy_mem better (rest.zip krest) x0 k0 with e | ⟨p, hp, e⟩
+          · rw [e]; exact hall x0 (List.mem_cons_self ..)
+          · rw [e]; exact hall p.1 (List.mem_cons_of_mem _ (List.of_mem_zip (show (p.1, p.2) ∈ rest.zip krest from hp)).1)
+  · simp [errType] at hw
+
+theorem sortArrayBy_nf {f : Val → Res Val} {v w : Val} (h : NoFloat v)
+    (hw : sortArrayBy f v = .ok w) : NoFloat w := by
+  unfold sortArrayBy at hw
+  split at hw
+  · next t xs =>
+    split at hw
+    · cases hw; exact h
+    · rw [widen_eq_ok] at hw
+      simp only [Res.bind_eq_ok] at hw
+      obtain ⟨ks, _, hw⟩ := hw
+      split at hw
+      · simp at hw
+      · cases hw
+        rw [noFloat_arr]
+        intro x hx
+        simp only [sortByKeys] at hx
+        obtain ⟨p, hp, rfl⟩ := List.mem_map.mp hx
+        have := List.mem_mergeSort.mp hp
+        exact noFloat_arr.mp h p.1 (List.of_mem_zip (show (p.1, p.2) ∈ xs.zip ks from this)).1
+  · simp [errType] at hw
+
+/-! objects -/
+theorem objInsert_nf {k : Bytes} {v : Val} (hv : NoFloat v) : ∀ {acc : List (Bytes × Val)},
+    (∀ k' x, (k', x) ∈ acc → NoFloat x) → ∀ k' x, (k', x) ∈ objInsert k v acc → NoFloat x
+  | [], _ => by
+    intro k' x hm
+    simp only [objInsert, List.mem_singleton, Prod.mk.injEq] at hm
+    obtain ⟨_, rfl⟩ := hm; exact hv
+  | (k0, v0) :: rest, h => by
+    intro k' x hm
+    simp only [objInsert] at hm
+    split at hm
+    · rcases List.mem_cons.mp hm with e | hm
+      · cases e; exact hv
+      · exact h k' x (List.mem_cons_of_mem _ hm)
+    · split at hm
+      · rcases List.mem_cons.mp hm with e | hm
+        · cases e; exact hv
+        · exact h k' x hm
+      · rcases List.mem_cons.mp hm with e | hm
+        · cases e; exact h k0 v0 (List.mem_cons_self ..)
+        · exact objInsert_nf hv (fun k'' x' hm' => h k'' x' (List.mem_cons_of_mem _ hm')) k' x hm
+
+theorem foldl_objInsert_nf : ∀ {kvs acc : List (Bytes × Val)}, (∀ k x, (k, x) ∈ kvs → NoFloat x) →
+    (∀ k x, (k, x) ∈ acc → NoFloat x) →
+    ∀ k x, (k, x) ∈ kvs.foldl (fun a kv => objInsert kv.1 kv.2 a) acc → NoFloat x
+  | [], acc, _, hacc => by simpa using hacc
+  | (k0, v0) :: rest, acc, hk, hacc => by
+    simp only [List.foldl_cons]
+    exact foldl_objInsert_nf (fun k x hm => hk k x (List.mem_cons_of_mem _ hm))
+      (objInsert_nf (hk k0 v0 (List.mem_cons_self ..)) hacc)
+
+theorem combineUnordered_nf {acc : Res (List (Bytes × Val))} {k : Bytes} {r : Res Val} {out : List (Bytes × Val)}
+    (hacc : ∀ kvs, acc = .ok kvs → ∀ k x, (k, x) ∈ kvs → NoFloat x) (hr : ∀ v, r = .ok v → NoFloat v)
+    (h : combineUnordered acc k r = .ok out) : ∀ k x, (k, x) ∈ out → NoFloat x := by
+  cases acc <;> cases r <;> simp [combineUnordered] at h
+  subst h
+  exact objInsert_nf (hr _ rfl) (hacc _ rfl)
+
+/-! zip -/
+theorem zipArgs_nf : ∀ {vs : List Val} {cols : List (List Val)}, (∀ v ∈ vs, NoFloat v) → zipArgs vs = .ok cols →
+    ∀ c ∈ cols, ∀ x ∈ c, NoFloat x
+  | [], cols, _, h => by simp [zipArgs] at h; subst h; simp
+  | .arr t xs :: rest, cols, hv, h => by
+    simp only [zipArgs, Res.bind_eq_ok] at h
+    obtain ⟨cols', hc, h⟩ := h
+    split at h
+    · simp at h
+    · simp only [Res.pure_eq, Res.ok.injEq] at h
+      subst h
+      have ih := zipArgs_nf (fun v hv' => hv v (List.mem_cons_of_mem _ hv')) hc
+      intro c hc'
+      rcases List.mem_cons.mp hc' with rfl | hc'
+      · exact noFloat_arr.mp (hv _ (List.mem_cons_self ..))
+      · exact ih c hc'
+  | .null :: _, _, _, h => by simp [zipArgs, errType] at h
+  | .bool _ :: _, _, _, h => by simp [zipArgs, errType] at h
+  | .str _ :: _, _, _, h => by simp [zipArgs, errType] at h
+  | .num _ :: _, _, _, h => by simp [zipArgs, errType] at h
+  | .obj _ :: _, _, _, h => by simp [zipArgs, errType] at h
+  | .foreign _ :: _, _, _, h => by simp [zipArgs, errType] at h
+
+theorem zipRows_nf : ∀ (n : Nat) {cols : List (List Val)}, (∀ c ∈ cols, ∀ x ∈ c, NoFloat x) →
+    ∀ y ∈ zipRows n cols, NoFloat y
+  | 0, _, _ => by simp [zipRows]
+  | n + 1, cols, h => by
+    intro y hy
+    simp only [zipRows, List.mem_cons] at hy
+    rcases hy with rfl | hy
+    · rw [noFloat_arr]
+      intro x hx
+      obtain ⟨c, hc, rfl⟩ := List.mem_map.mp hx
+      cases c with
+      | nil => simp
+      | cons a c' => exact h _ hc a (List.mem_cons_self ..)
+    · refine zipRows_nf n ?_ y hy
+      intro c hc x hx
+      obtain ⟨c0, hc0, rfl⟩ := List.mem_map.mp hc
+      exact h c0 hc0 x (List.mem_of_mem_tail hx)
+
+
+theorem strsToArr_nf (ss : List Bytes) : NoFloat (strsToArr ss) := by
+  unfold strsToArr
+  rw [noFloat_arr]
+  intro x hx
+  obtain ⟨s, _, rfl⟩ := List.mem_map.mp hx
+  simp
+
+theorem runeIndexVal_nf (s : Bytes) (n : Nat) : NoFloat (runeIndexVal s n) := by simp [runeIndexVal]
+
+theorem strVal_nf (s : String) : NoFloat (strVal s) := by simp [strVal]
+
+set_option hygiene false in
+/-- peel binds / matches off a hypothesis `hw : … = .ok w` and close the leaves -/
+macro "nf_leaves" : tactic => `(tactic|
+  (repeat' (first
+     | (simp only [Res.bind_eq_ok, Res.pure_eq] at hw)
+     | (obtain ⟨_, _, hw⟩ := hw)
+     | (split at hw))
+   all_goals (first
+     | (simp [errType, errValue] at hw; done)
+     | ((try simp only [Res.ok.injEq] at hw); (try subst hw);
+        first | (simp; done) | (simp [noFloat_arr]; done) | exact strsToArr_nf _ | exact runeIndexVal_nf _ _ | exact strVal_nf _ | assumption))))
+
+theorem startsWith_nf {a b w : Val} (hw : startsWith a b = .ok w) : NoFloat w := by
+  unfold startsWith at hw; nf_leaves
+theorem endsWith_nf {a b w : Val} (hw : endsWith a b = .ok w) : NoFloat w := by
+  unfold endsWith at hw; nf_leaves
+theorem findFirst_nf {a b w : Val} (hw : findFirst a b = .ok w) : NoFloat w := by
+  unfold findFirst at hw; nf_leaves
+theorem findLast_nf {a b w : Val} (hw : findLast a b = .ok w) : NoFloat w := by
+  unfold findLast at hw; nf_leaves
+theorem findFrom_nf {l : Bool} {a b c w : Val} (hw : findFrom l a b c = .ok w) : NoFloat w := by
+  unfold findFrom at hw; nf_leaves
+theorem findBetween_nf {l : Bool} {a b c d w : Val} (hw : findBetween l a b c d = .ok w) : NoFloat w := by
+  unfold findBetween at hw; nf_leaves
+theorem join_nf {a b w : Val} (hw : join a b = .ok w) : NoFloat w := by
+  unfold join at hw; nf_leaves
+theorem padWith_nf {l : Bool} {s : Bytes} {n : Int} {p : Bytes} {orig w : Val} (ho : NoFloat orig)
+    (hw : padWith l s n p orig = .ok w) : NoFloat w := by
+  unfold padWith at hw; nf_leaves
+theorem padLeft_nf {a b c w : Val} (ha : NoFloat a) (hw : padLeft a b c = .ok w) : NoFloat w := by
+  unfold padLeft at hw
+  simp only [Res.bind_eq_ok] at hw
+  obtain ⟨_, _, _, _, _, _, hw⟩ := hw
+  exact padWith_nf ha hw
+theorem padRight_nf {a b c w : Val} (ha : NoFloat a) (hw : padRight a b c = .ok w) : NoFloat w := by
+  unfold padRight at hw
+  simp only [Res.bind_eq_ok] at hw
+  obtain ⟨_, _, _, _, _, _, hw⟩ := hw
+  exact padWith_nf ha hw
+theorem padSpaceLeft_nf {a b w : Val} (ha : NoFloat a) (hw : padSpaceLeft a b = .ok w) : NoFloat w := by
+  unfold padSpaceLeft at hw
+  simp only [Res.bind_eq_ok] at hw
+  obtain ⟨_, _, _, _, hw⟩ := hw
+  exact padWith_nf ha hw
+theorem padSpaceRight_nf {a b w : Val} (ha : NoFloat a) (hw : padSpaceRight a b = .ok w) : NoFloat w := by
+  unfold padSpaceRight at hw
+  simp only [Res.bind_eq_ok] at hw
+  obtain ⟨_, _, _, _, hw⟩ := hw
+  exact padWith_nf ha hw
+theorem replace_nf {a b c w : Val} (hw : replace a b c = .ok w) : NoFloat w := by
+  unfold replace at hw; nf_leaves
+theorem replaceCount_nf {a b c d w : Val} (hw : replaceCount a b c d = .ok w) : NoFloat w := by
+  unfold replaceCount at hw; nf_leaves
+theorem split_nf {a b w : Val} (hw : split a b = .ok w) : NoFloat w := by
+  unfold split at hw; nf_leaves
+theorem splitCount_nf {a b c w : Val} (hw : splitCount a b c = .ok w) : NoFloat w := by
+  unfold splitCount at hw; nf_leaves
+theorem trim_nf {a b w : Val} (hw : trim a b = .ok w) : NoFloat w := by
+  unfold trim at hw; nf_leaves
+theorem trimLeft_nf {a b w : Val} (hw : trimLeft a b = .ok w) : NoFloat w := by
+  unfold trimLeft at hw; nf_leaves
+theorem trimRight_nf {a b w : Val} (hw : trimRight a b = .ok w) : NoFloat w := by
+  unfold trimRight at hw; nf_leaves
+theorem trimSpace_nf {a w : Val} (hw : trimSpace a = .ok w) : NoFloat w := by
+  unfold trimSpace at hw; nf_leaves
+theorem trimSpaceLeft_nf {a w : Val} (hw : trimSpaceLeft a = .ok w) : NoFloat w := by
+  unfold trimSpaceLeft at hw; nf_leaves
+theorem trimSpaceRight_nf {a w : Val} (hw : trimSpaceRight a = .ok w) : NoFloat w := by
+  unfold trimSpaceRight at hw; nf_leaves
+theorem caseMap_nf {f : Nat → Option Nat} {s : Bytes} {w : Val} (hw : caseMap f s = .ok w) : NoFloat w := by
+  unfold caseMap at hw; nf_leaves
+theorem lower_nf {a w : Val} (hw : lower a = .ok w) : NoFloat w := by
+  unfold lower at hw
+  split at hw
+  · exact caseMap_nf hw
+  · simp [errType] at hw
+theorem upper_nf {a w : Val} (hw : upper a = .ok w) : NoFloat w := by
+  unfold upper at hw
+  split at hw
+  · exact caseMap_nf hw
+  · simp [errType] at hw
+theorem length_nf {a w : Val} (hw : length a = .ok w) : NoFloat w := by
+  unfold length at hw; nf_leaves
+theorem typeName_nf {a w : Val} (hw : typeName a = .ok w) : NoFloat w := by
+  unfold typeName at hw; nf_leaves
+theorem toStringV_nf {a w : Val} (hw : toStringV a = .ok w) : NoFloat w := by
+  unfold toStringV at hw; nf_leaves
+theorem contains_nf {a b w : Val} (hw : contains a b = .ok w) : NoFloat w := by
+  unfold contains at hw; nf_leaves
+theorem keys_nf {a w : Val} (hw : keys a = .ok w) : NoFloat w := by
+  unfold keys at hw
+  split at hw
+  · cases hw
+    rw [noFloat_arr]; intro x hx
+    obtain ⟨_, _, rfl⟩ := List.mem_map.mp hx; simp
+  · simp [errType] at hw
+
+
+theorem values_nf {a w : Val} (h : NoFloat a) (hw : values a = .ok w) : NoFloat w := by
+  unfold values at hw
+  split at hw
+  · cases hw
+    rw [noFloat_arr]; intro x hx
+    obtain ⟨⟨k, x'⟩, hm, rfl⟩ := List.mem_map.mp hx
+    exact noFloat_obj.mp h k x' hm
+  · simp [errType] at hw
+
+theorem items_nf {a w : Val} (h : NoFloat a) (hw : items a = .ok w) : NoFloat w := by
+  unfold items at hw
+  split at hw
+  · cases hw
+    rw [noFloat_arr]; intro x hx
+    obtain ⟨⟨k, x'⟩, hm, rfl⟩ := List.mem_map.mp hx
+    rw [noFloat_arr]; intro y hy
+    simp only [List.mem_cons, List.not_mem_nil, or_false] at hy
+    rcases hy with hy | hy
+    · subst hy; simp
+    · subst hy; exact noFloat_obj.mp h k _ hm
+  · simp [errType] at hw
+
+theorem fromItemsLoop_nf : ∀ {xs : List Val} {acc r : List (Bytes × Val)}, (∀ x ∈ xs, NoFloat x) →
+    (∀ k x, (k, x) ∈ acc → NoFloat x) → fromItemsLoop xs acc = .ok r → ∀ k x, (k, x) ∈ r → NoFloat x
+  | [], acc, r, _, hacc, h => by simp [fromItemsLoop] at h; subst h; exact hacc
+  | .arr t ia :: xs, acc, r, hx, hacc, h => by
+    have hx' : ∀ y ∈ xs, NoFloat y := fun y hy => hx y (List.mem_cons_of_mem _ hy)
+    have h0 := hx _ (List.mem_cons_self ..)
+    simp only [fromItemsLoop] at h
+    split at h
+    · next k v =>
+      split at h
+      · simp at h
+      · split at h
+        · next s =>
+          have hv : NoFloat v := noFloat_arr.mp h0 v (by simp)
+          exact fromItemsLoop_nf hx' (objInsert_nf hv hacc) h
+        · simp [errValue] at h
+    · simp [errValue] at h
+  | .null :: _, _, _, _, _, h => by simp [fromItemsLoop, errType] at h
+  | .bool _ :: _, _, _, _, _, h => by simp [fromItemsLoop, errType] at h
+  | .str _ :: _, _, _, _, _, h => by simp [fromItemsLoop, errType] at h
+  | .num _ :: _, _, _, _, _, h => by simp [fromItemsLoop, errType] at h
+  | .obj _ :: _, _, _, _, _, h => by simp [fromItemsLoop, errType] at h
+  | .foreign _ :: _, _, _, _, _, h => by simp [fromItemsLoop, errType] at h
+
+theorem fromItems_nf {a w : Val} (h : NoFloat a) (hw : fromItems a = .ok w) : NoFloat w := by
+  unfold fromItems at hw
+  split at hw
+  · next t xs =>
+    split at hw
+    · next kvs hl =>
+      split at hw
+      · simp at hw
+      · cases hw
+        exact noFloat_obj.mpr (fromItemsLoop_nf (noFloat_arr.mp h) (by simp) hl)
+    · split at hw <;> simp at hw
+    · simp at hw
+    · simp at hw
+    · simp at hw
+  · simp [errType] at hw
+
+theorem reverse_nf {a w : Val} (h : NoFloat a) (hw : reverse a = .ok w) : NoFloat w := by
+  unfold reverse at hw
+  split at hw
+  · cases hw; simp
+  · cases hw
+    rw [noFloat_arr]; intro x hx
+    exact noFloat_arr.mp h x (List.mem_reverse.mp hx)
+  · simp [errType] at hw
+
+theorem toArray_nf {a : Val} (h : NoFloat a) : NoFloat (toArray a) := by
+  unfold toArray
+  split
+  · exact h
+  · rw [noFloat_arr]; intro x hx; simp at hx; subst hx; exact h
+
+theorem sortArray_nf {a w : Val} (h : NoFloat a) (hw : sortArray a = .ok w) : NoFloat w := by
+  unfold sortArray at hw
+  split at hw
+  · next t xs =>
+    split at hw
+    · cases hw; exact h
+    · split at hw
+      · cases hw
+        rw [noFloat_arr]; intro x hx
+        obtain ⟨_, _, rfl⟩ := List.mem_map.mp hx; simp
+      · simp [errType] at hw
+    · split at hw
+      · next ds _ =>
+        simp only at hw
+        split at hw
+        · simp at hw
+        · cases hw
+          rw [noFloat_arr]; intro x hx
+          obtain ⟨p, hp, rfl⟩ := List.mem_map.mp hx
+          have := List.mem_mergeSort.mp hp
+          exact noFloat_arr.mp h p.1 (List.of_mem_zip (show (p.1, p.2) ∈ xs.zip ds from this)).1
+      · simp [errType] at hw
+  · simp [errType] at hw
+
+
+theorem applyBinOp_nf {op : BinOp} {x y v : Val} (hxy : x.NoFloat ∨ y.NoFloat) (h : applyBinOp op x y = .ok v) :
+    v.NoFloat := by
+  cases op
+  case eq | ne =>
+    simp only [applyBinOp, Res.bind_eq_ok, Res.pure_eq, Res.ok.injEq] at h
+    obtain ⟨_, _, rfl⟩ := h; simp
+  case lt | le | gt | ge =>
+    simp only [applyBinOp, less, lessOrEqual, greater, greaterOrEqual, cmpOp, Res.ok.injEq] at h
+    subst h
+    split
+    · simp
+    · split <;> simp
+  all_goals exact arith_result_noFloat hxy h
+
+theorem applyFn_nf {f : Fn} {args : List Val} {w : Val} (ha : ∀ a ∈ args, NoFloat a) (hw : applyFn f args = .ok w) :
+    NoFloat w := by
+  have h0 : ∀ {a : Val} {l : List Val}, args = a :: l → NoFloat a := fun e => ha _ (e ▸ List.mem_cons_self ..)
+  unfold applyFn at hw
+  split at hw
+  · exact numAbs_result_noFloat (h0 rfl) hw
+  · exact numAvg_result_noFloat hw
+  · exact numCeil_result_noFloat (h0 rfl) hw
+  · exact contains_nf hw
+  · exact endsWith_nf hw
+  · exact findFirst_nf hw
+  · exact findBetween_nf hw
+  · exact findFrom_nf hw
+  · exact findLast_nf hw
+  · exact findBetween_nf hw
+  · exact findFrom_nf hw
+  · exact numFloor_result_noFloat (h0 rfl) hw
+  · exact fromItems_nf (h0 rfl) hw
+  · exact items_nf (h0 rfl) hw
+  · exact join_nf hw
+  · exact keys_nf hw
+  · exact length_nf hw
+  · exact lower_nf hw
+  · exact arrayMax_result_noFloat hw
+  · exact arrayMin_result_noFloat hw
+  · exact padLeft_nf (h0 rfl) hw
+  · exact padRight_nf (h0 rfl) hw
+  · exact padSpaceLeft_nf (h0 rfl) hw
+  · exact padSpaceRight_nf (h0 rfl) hw
+  · exact replace_nf hw
+  · exact replaceCount_nf hw
+  · exact reverse_nf (h0 rfl) hw
+  · exact sortArray_nf (h0 rfl) hw
+  · exact split_nf hw
+  · exact splitCount_nf hw
+  · exact startsWith_nf hw
+  · exact numSum_result_noFloat hw
+  · cases hw; exact toArray_nf (h0 rfl)
+  · cases hw; exact toNumber_result_noFloat (h0 rfl)
+  · exact toStringV_nf hw
+  · exact trim_nf hw
+  · exact trimLeft_nf hw
+  · exact trimRight_nf hw
+  · exact trimSpace_nf hw
+  · exact trimSpaceLeft_nf hw
+  · exact trimSpaceRight_nf hw
+  · exact typeName_nf hw
+  · exact upper_nf hw
+  · exact values_nf (h0 rfl) hw
+  · simp at hw
+
+/-- every binding of the environment is float-free -/
+def EnvNF (env : Env) : Prop := ∀ k x, (k, x) ∈ env → NoFloat x
+
+mutual
+/-- every literal of the expression is float-free -/
+def Tree.LitsNF : Tree → Prop
+  | .lit v => NoFloat v
+  | .current | .root | .field _ | .var _ | .index _ | .slice _ _ | .sliceStep _ _ _ => True
+  | .sub l r | .binop _ l r | .and l r | .or l r | .proj l r | .sliceProj l r | .flatProj l r | .valueProj l r
+  | .groupBy l r | .map l r | .maxBy l r | .minBy l r | .sortBy l r => l.LitsNF ∧ r.LitsNF
+  | .not c | .neg c | .pos c | .prune c => c.LitsNF
+  | .filterProj l c r => l.LitsNF ∧ c.LitsNF ∧ r.LitsNF
+  | .call _ args | .multiList _ args | .merge args | .notNull args | .zip args => Tree.LitsNFL args
+  | .multiHash _ kvs => Tree.LitsNFF kvs
+  | .letIn bs body => Tree.LitsNFF bs ∧ body.LitsNF
+def Tree.LitsNFL : List Tree → Prop
+  | [] => True
+  | t :: ts => t.LitsNF ∧ Tree.LitsNFL ts
+def Tree.LitsNFF : List (Bytes × Tree) → Prop
+  | [] => True
+  | (_, t) :: rest => t.LitsNF ∧ Tree.LitsNFF rest
+end
+
+
+theorem envGet_nf {env : Env} (h : EnvNF env) {x : Bytes} {v : Val} (hv : env.get x = some v) : NoFloat v :=
+  h x v (objLookup_mem hv)
+
+mutual
+theorem seval_nf (root : Val) (hr : NoFloat root) : (t : Tree) → (cur : Val) → (env : Env) → t.LitsNF → NoFloat cur →
+    EnvNF env → ∀ w, seval root t cur env = .ok w → NoFloat w
+  | .lit v, cur, env, hl, hc, he, w, hw => by
+    simp only [seval, Res.ok.injEq] at hw; subst hw; simpa [Tree.LitsNF] using hl
+  | .current, cur, env, hl, hc, he, w, hw => by
+    simp only [seval, Res.ok.injEq] at hw; subst hw; exact hc
+  | .root, cur, env, hl, hc, he, w, hw => by
+    simp only [seval, Res.ok.injEq] at hw; subst hw; exact hr
+  | .field k, cur, env, hl, hc, he, w, hw => by
+    simp only [seval, Res.ok.injEq] at hw; subst hw; exact field_nf k hc
+  | .var x, cur, env, hl, hc, he, w, hw => by
+    simp only [seval] at hw
+    split at hw
+    · next v hv => simp only [Res.ok.injEq] at hw; subst hw; exact envGet_nf he hv
+    · simp at hw
+  | .index i, cur, env, hl, hc, he, w, hw => by
+    simp only [seval] at hw; exact index_nf hc hw
+  | .slice a b, cur, env, hl, hc, he, w, hw => by
+    simp only [seval] at hw; exact slice_nf hc hw
+  | .sliceStep a b s, cur, env, hl, hc, he, w, hw => by
+    simp only [seval] at hw; exact sliceStep_nf hc hw
+  | .sub l r, cur, env, hl, hc, he, w, hw => by
+    simp only [Tree.LitsNF] at hl
+    simp only [seval, Res.bind_eq_ok] at hw
+    obtain ⟨a, ha, hw⟩ := hw
+    exact seval_nf root hr r a env hl.2 (seval_nf root hr l cur env hl.1 hc he a ha) he w hw
+  | .binop op l r, cur, env, hl, hc, he, w, hw => by
+    simp only [Tree.LitsNF] at hl
+    simp only [seval, Res.bind_eq_ok] at hw
+    obtain ⟨a, ha, b, hb, hw⟩ := hw
+    exact applyBinOp_nf (Or.inl (seval_nf root hr l cur env hl.1 hc he a ha)) hw
+  | .and l r, cur, env, hl, hc, he, w, hw => by
+    simp only [Tree.LitsNF] at hl
+    simp only [seval, Res.bind_eq_ok] at hw
+    obtain ⟨a, ha, hw⟩ := hw
+    split at hw
+    · simp only [Res.pure_eq, Res.ok.injEq] at hw; subst hw; exact seval_nf root hr l cur env hl.1 hc he a ha
+    · exact seval_nf root hr r cur env hl.2 hc he w hw
+  | .or l r, cur, env, hl, hc, he, w, hw => by
+    simp only [Tree.LitsNF] at hl
+    simp only [seval, Res.bind_eq_ok] at hw
+    obtain ⟨a, ha, hw⟩ := hw
+    split at hw
+    · simp only [Res.pure_eq, Res.ok.injEq] at hw; subst hw; exact seval_nf root hr l cur env hl.1 hc he a ha
+    · exact seval_nf root hr r cur env hl.2 hc he w hw
+  | .not c, cur, env, hl, hc, he, w, hw => by
+    simp only [seval, Res.bind_eq_ok, Res.pure_eq, Res.ok.injEq] at hw
+    obtain ⟨a, _, rfl⟩ := hw; simp
+  | .neg c, cur, env, hl, hc, he, w, hw => by
+    simp only [Tree.LitsNF] at hl
+    simp only [seval, Res.bind_eq_ok, Res.pure_eq, Res.ok.injEq] at hw
+    obtain ⟨a, ha, rfl⟩ := hw
+    exact negateVal_result_noFloat (seval_nf root hr c cur env hl hc he a ha)
+  | .pos c, cur, env, hl, hc, he, w, hw => by
+    simp only [Tree.LitsNF] at hl
+    simp only [seval, Res.bind_eq_ok, Res.pure_eq, Res.ok.injEq] at hw
+    obtain ⟨a, ha, rfl⟩ := hw
+    split
+    · exact seval_nf root hr c cur env hl hc he a ha
+    · simp
+  | .call f args, cur, env, hl, hc, he, w, hw => by
+    simp only [Tree.LitsNF] at hl
+    simp only [seval, Res.bind_eq_ok] at hw
+    obtain ⟨vs, hvs, hw⟩ := hw
+    exact applyFn_nf (sevalList_nf root hr args cur env hl hc he vs hvs) hw
+  | .prune l, cur, env, hl, hc, he, w, hw => by
+    simp only [Tree.LitsNF] at hl
+    simp only [seval, Res.bind_eq_ok, Res.pure_eq, Res.ok.injEq] at hw
+    obtain ⟨a, ha, rfl⟩ := hw
+    exact pruneArray_nf (seval_nf root hr l cur env hl hc he a ha)
+  | .proj l r, cur, env, hl, hc, he, w, hw => by
+    simp only [Tree.LitsNF] at hl
+    simp only [seval, Res.bind_eq_ok] at hw
+    obtain ⟨a, ha, hw⟩ := hw
+    exact projectArray_nf (fun x hx v hv => seval_nf root hr r x env hl.2 hx he v hv)
+      (seval_nf root hr l cur env hl.1 hc he a ha) hw
+  | .sliceProj l r, cur, env, hl, hc, he, w, hw => by
+    simp only [Tree.LitsNF] at hl
+    simp only [seval, Res.bind_eq_ok] at hw
+    obtain ⟨a, ha, hw⟩ := hw
+    have hna := seval_nf root hr l cur env hl.1 hc he a ha
+    split at hw
+    · exact seval_nf root hr r _ env hl.2 hna he w hw
+    · exact projectArray_nf (fun x hx v hv => seval_nf root hr r x env hl.2 hx he v hv) hna hw
+  | .flatProj l r, cur, env, hl, hc, he, w, hw => by
+    simp only [Tree.LitsNF] at hl
+    simp only [seval, Res.bind_eq_ok] at hw
+    obtain ⟨a, ha, hw⟩ := hw
+    exact flattenAndProjectArray_nf (fun x hx v hv => seval_nf root hr r x env hl.2 hx he v hv)
+      (seval_nf root hr l cur env hl.1 hc he a ha) hw
+  | .filterProj l c r, cur, env, hl, hc, he, w, hw => by
+    simp only [Tree.LitsNF] at hl
+    simp only [seval, Res.bind_eq_ok] at hw
+    obtain ⟨a, ha, hw⟩ := hw
+    exact filterAndProjectArray_nf (fun x hx v hv => seval_nf root hr r x env hl.2.2 hx he v hv)
+      (seval_nf root hr l cur env hl.1 hc he a ha) hw
+  | .valueProj l r, cur, env, hl, hc, he, w, hw => by
+    simp only [Tree.LitsNF] at hl
+    simp only [seval, Res.bind_eq_ok] at hw
+    obtain ⟨a, ha, hw⟩ := hw
+    exact projectObject_nf (fun x hx v hv => seval_nf root hr r x env hl.2 hx he v hv)
+      (seval_nf root hr l cur env hl.1 hc he a ha) hw
+  | .multiList chk es, cur, env, hl, hc, he, w, hw => by
+    simp only [Tree.LitsNF] at hl
+    simp only [seval] at hw
+    split at hw
+    · simp only [Res.ok.injEq] at hw; subst hw; simp
+    · simp only [Res.bind_eq_ok, Res.pure_eq, Res.ok.injEq] at hw
+      obtain ⟨vs, hvs, rfl⟩ := hw
+      exact noFloat_arr.mpr (sevalList_nf root hr es cur env hl hc he vs hvs)
+  | .multiHash chk kvs, cur, env, hl, hc, he, w, hw => by
+    simp only [Tree.LitsNF] at hl
+    simp only [seval] at hw
+    split at hw
+    · simp only [Res.ok.injEq] at hw; subst hw; simp
+    · simp only [Res.bind_eq_ok, Res.pure_eq, Res.ok.injEq] at hw
+      obtain ⟨fs, hfs, rfl⟩ := hw
+      exact noFloat_obj.mpr (sevalFields_nf root hr kvs cur env hl hc he fs hfs)
+  | .letIn bs body, cur, env, hl, hc, he, w, hw => by
+    simp only [Tree.LitsNF] at hl
+    simp only [seval, Res.bind_eq_ok] at hw
+    obtain ⟨vs, hvs, hw⟩ := hw
+    have hvs' := sevalFields_nf root hr bs cur env hl.1 hc he vs hvs
+    refine seval_nf root hr body cur (vs ++ env) hl.2 hc ?_ w hw
+    intro k x hm
+    rcases List.mem_append.mp hm with hm | hm
+    · exact hvs' k x hm
+    · exact he k x hm
+  | .groupBy a e, cur, env, hl, hc, he, w, hw => by
+    simp only [Tree.LitsNF] at hl
+    simp only [seval, Res.bind_eq_ok] at hw
+    obtain ⟨v, hv, hw⟩ := hw
+    exact groupBy_nf (seval_nf root hr a cur env hl.1 hc he v hv) hw
+  | .map e a, cur, env, hl, hc, he, w, hw => by
+    simp only [Tree.LitsNF] at hl
+    simp only [seval, Res.bind_eq_ok] at hw
+    obtain ⟨v, hv, hw⟩ := hw
+    exact mapArray_nf (fun x hx v hv => seval_nf root hr e x env hl.1 hx he v hv)
+      (seval_nf root hr a cur env hl.2 hc he v hv) hw
+  | .maxBy a e, cur, env, hl, hc, he, w, hw => by
+    simp only [Tree.LitsNF] at hl
+    simp only [seval, Res.bind_eq_ok] at hw
+    obtain ⟨v, hv, hw⟩ := hw
+    exact arrayPickBy_nf (seval_nf root hr a cur env hl.1 hc he v hv) hw
+  | .minBy a e, cur, env, hl, hc, he, w, hw => by
+    simp only [Tree.LitsNF] at hl
+    simp only [seval, Res.bind_eq_ok] at hw
+    obtain ⟨v, hv, hw⟩ := hw
+    exact arrayPickBy_nf (seval_nf root hr a cur env hl.1 hc he v hv) hw
+  | .sortBy a e, cur, env, hl, hc, he, w, hw => by
+    simp only [Tree.LitsNF] at hl
+    simp only [seval, Res.bind_eq_ok] at hw
+    obtain ⟨v, hv, hw⟩ := hw
+    exact sortArrayBy_nf (seval_nf root hr a cur env hl.1 hc he v hv) hw
+  | .merge args, cur, env, hl, hc, he, w, hw => by
+    simp only [Tree.LitsNF] at hl
+    simp only [seval, Res.bind_eq_ok, Res.pure_eq, Res.ok.injEq] at hw
+    obtain ⟨kvs, hk, rfl⟩ := hw
+    exact noFloat_obj.mpr (sevalMerge_nf root hr args cur env [] hl hc he (by simp) kvs hk)
+  | .notNull args, cur, env, hl, hc, he, w, hw => by
+    simp only [Tree.LitsNF] at hl
+    simp only [seval] at hw
+    exact sevalNotNull_nf root hr args cur env hl hc he w hw
+  | .zip args, cur, env, hl, hc, he, w, hw => by
+    simp only [Tree.LitsNF] at hl
+    simp only [seval, Res.bind_eq_ok] at hw
+    obtain ⟨vs, hvs, cols, hcols, hw⟩ := hw
+    have hcn := zipArgs_nf (sevalZip_nf root hr args cur env hl hc he vs hvs) hcols
+    split at hw
+    · simp only [Res.pure_eq, Res.ok.injEq] at hw; subst hw; simp [noFloat_arr]
+    · simp only [Res.pure_eq, Res.ok.injEq] at hw; subst hw
+      exact noFloat_arr.mpr (zipRows_nf _ hcn)
+theorem sevalList_nf (root : Val) (hr : NoFloat root) : (ts : List Tree) → (cur : Val) → (env : Env) →
+    Tree.LitsNFL ts → NoFloat cur → EnvNF env → ∀ vs, sevalList root ts cur env = .ok vs → ∀ v ∈ vs, NoFloat v
+  | [], cur, env, hl, hc, he, vs, hw => by
+    simp only [sevalList, Res.ok.injEq] at hw; subst hw; simp
+  | t :: ts, cur, env, hl, hc, he, vs, hw => by
+    simp only [Tree.LitsNFL] at hl
+    simp only [sevalList, Res.bind_eq_ok, Res.pure_eq, Res.ok.injEq] at hw
+    obtain ⟨v, hv, rest, hrest, rfl⟩ := hw
+    intro y hy
+    rcases List.mem_cons.mp hy with rfl | hy
+    · exact seval_nf root hr t cur env hl.1 hc he _ hv
+    · exact sevalList_nf root hr ts cur env hl.2 hc he rest hrest y hy
+theorem sevalFields_nf (root : Val) (hr : NoFloat root) : (fs : List (Bytes × Tree)) → (cur : Val) → (env : Env) →
+    Tree.LitsNFF fs → NoFloat cur → EnvNF env → ∀ kvs, sevalFields root fs cur env = .ok kvs →
+    ∀ k x, (k, x) ∈ kvs → NoFloat x
+  | [], cur, env, hl, hc, he, kvs, hw => by
+    simp only [sevalFields, Res.ok.injEq] at hw; subst hw; simp
+  | (k, t) :: rest, cur, env, hl, hc, he, kvs, hw => by
+    simp only [Tree.LitsNFF] at hl
+    simp only [sevalFields] at hw
+    exact combineUnordered_nf (fun kvs' h' => sevalFields_nf root hr rest cur env hl.2 hc he kvs' h')
+      (fun v hv => seval_nf root hr t cur env hl.1 hc he v hv) hw
+theorem sevalMerge_nf (root : Val) (hr : NoFloat root) : (ts : List Tree) → (cur : Val) → (env : Env) →
+    (acc : List (Bytes × Val)) → Tree.LitsNFL ts → NoFloat cur → EnvNF env → (∀ k x, (k, x) ∈ acc → NoFloat x) →
+    ∀ kvs, sevalMerge root ts cur env acc = .ok kvs → ∀ k x, (k, x) ∈ kvs → NoFloat x
+  | [], cur, env, acc, hl, hc, he, hacc, kvs, hw => by
+    simp only [sevalMerge, Res.ok.injEq] at hw; subst hw; exact hacc
+  | t :: ts, cur, env, acc, hl, hc, he, hacc, kvs, hw => by
+    simp only [Tree.LitsNFL] at hl
+    simp only [sevalMerge, Res.bind_eq_ok] at hw
+    obtain ⟨v, hv, hw⟩ := hw
+    have hvn := seval_nf root hr t cur env hl.1 hc he v hv
+    split at hw
+    · exact sevalMerge_nf root hr ts cur env _ hl.2 hc he
+        (foldl_objInsert_nf (noFloat_obj.mp hvn) hacc) kvs hw
+    · simp [errType] at hw
+theorem sevalNotNull_nf (root : Val) (hr : NoFloat root) : (ts : List Tree) → (cur : Val) → (env : Env) →
+    Tree.LitsNFL ts → NoFloat cur → EnvNF env → ∀ w, sevalNotNull root ts cur env = .ok w → NoFloat w
+  | [], cur, env, hl, hc, he, w, hw => by
+    simp only [sevalNotNull, Res.ok.injEq] at hw; subst hw; simp
+  | t :: ts, cur, env, hl, hc, he, w, hw => by
+    simp only [Tree.LitsNFL] at hl
+    simp only [sevalNotNull, Res.bind_eq_ok] at hw
+    obtain ⟨v, hv, hw⟩ := hw
+    split at hw
+    · exact sevalNotNull_nf root hr ts cur env hl.2 hc he w hw
+    · simp only [Res.pure_eq, Res.ok.injEq] at hw; subst hw
+      exact seval_nf root hr t cur env hl.1 hc he _ hv
+theorem sevalZip_nf (root : Val) (hr : NoFloat root) : (ts : List Tree) → (cur : Val) → (env : Env) →
+    Tree.LitsNFL ts → NoFloat cur → EnvNF env → ∀ vs, sevalZip root ts cur env = .ok vs → ∀ v ∈ vs, NoFloat v
+  | [], cur, env, hl, hc, he, vs, hw => by
+    simp only [sevalZip, Res.ok.injEq] at hw; subst hw; simp
+  | t :: ts, cur, env, hl, hc, he, vs, hw => by
+    simp only [Tree.LitsNFL] at hl
+    simp only [sevalZip, Res.bind_eq_ok] at hw
+    obtain ⟨v, hv, hw⟩ := hw
+    have hvn := seval_nf root hr t cur env hl.1 hc he v hv
+    split at hw
+    · simp only [Res.bind_eq_ok, Res.pure_eq, Res.ok.injEq] at hw
+      obtain ⟨rest, hrest, rfl⟩ := hw
+      intro y hy
+      rcases List.mem_cons.mp hy with rfl | hy
+      · exact hvn
+      · exact sevalZip_nf root hr ts cur env hl.2 hc he rest hrest y hy
+    · simp [errType] at hw
+end
+
+
+/-! ### the same for the Go-shaped evaluator `ieval` over `INode` -/
+
+mutual
+/-- every literal of the expression is float-free -/
+def INode.LitsNF : INode → Prop
+  | .lit v => NoFloat v
+  | .current | .root | .field _ | .variable _ | .flattenCurrent | .indexCurrent _ | .smallIndexCurrent _
+  | .objectValuesCurrent | .pruneArrayCurrent | .sliceCurrent _ _ | .sliceStepCurrent _ _ _ => True
+  | .binop _ l r | .and l r | .or l r | .filter l r | .filterAndProjectCurrent l r | .flattenAndProject l r
+  | .pipe l r | .projectArray l r | .projectObject l r | .selectArraySingle l r | .selectObjectSingle l _ r
+  | .groupBy l r | .map l r | .maxBy l r | .minBy l r | .sortBy l r => l.LitsNF ∧ r.LitsNF
+  | .not c | .negate c | .assertNumber c | .filterCurrent c | .flatten c | .flattenAndProjectCurrent c | .index c _
+  | .objectValues c | .projectArrayCurrent c | .projectObjectCurrent c | .pruneArray c | .selectArraySingleCurrent c
+  | .selectObjectSingleCurrent _ c | .slice c _ _ | .sliceStep c _ _ _ => c.LitsNF
+  | .filterAndProject l f r => l.LitsNF ∧ f.LitsNF ∧ r.LitsNF
+  | .call _ args | .selectArrayCurrent args | .merge args | .notNull args | .zip args => INode.LitsNFL args
+  | .selectArray c fs => c.LitsNF ∧ INode.LitsNFL fs
+  | .selectObject c fs => c.LitsNF ∧ INode.LitsNFF fs
+  | .selectObjectCurrent fs => INode.LitsNFF fs
+  | .defineVariables vars child => INode.LitsNFF vars ∧ child.LitsNF
+def INode.LitsNFL : List INode → Prop
+  | [] => True
+  | n :: ns => n.LitsNF ∧ INode.LitsNFL ns
+def INode.LitsNFF : List (Bytes × INode) → Prop
+  | [] => True
+  | (_, n) :: rest => n.LitsNF ∧ INode.LitsNFF rest
+end
+
+mutual
+theorem desugar_litsNF : (n : INode) → n.LitsNF → (desugar n).LitsNF
+  | .lit v, h => by simpa [desugar, INode.LitsNF, Tree.LitsNF] using h
+  | .current, _ | .root, _ | .field _, _ | .variable _, _ | .flattenCurrent, _ | .indexCurrent _, _
+  | .smallIndexCurrent _, _ | .objectValuesCurrent, _ | .pruneArrayCurrent, _ | .sliceCurrent _ _, _
+  | .sliceStepCurrent _ _ _, _ => by simp [desugar, Tree.LitsNF]
+  | .binop _ l r, h | .and l r, h | .or l r, h | .flattenAndProject l r, h | .pipe l r, h | .projectObject l r, h
+  | .groupBy l r, h | .map l r, h | .maxBy l r, h | .minBy l r, h | .sortBy l r, h => by
+    simp only [INode.LitsNF] at h
+    simp only [desugar, Tree.LitsNF]
+    exact ⟨desugar_litsNF l h.1, desugar_litsNF r h.2⟩
+  | .projectArray l r, h => by
+    simp only [INode.LitsNF] at h
+    simp only [desugar]
+    split <;> (simp only [Tree.LitsNF]; exact ⟨desugar_litsNF l h.1, desugar_litsNF r h.2⟩)
+  | .filter l r, h => by
+    simp only [INode.LitsNF] at h
+    simp only [desugar, Tree.LitsNF]
+    exact ⟨desugar_litsNF l h.1, desugar_litsNF r h.2, trivial⟩
+  | .filterAndProjectCurrent l r, h => by
+    simp only [INode.LitsNF] at h
+    simp only [desugar, Tree.LitsNF]
+    exact ⟨trivial, desugar_litsNF l h.1, desugar_litsNF r h.2⟩
+  | .filterAndProject l f r, h => by
+    simp only [INode.LitsNF] at h
+    simp only [desugar, Tree.LitsNF]
+    exact ⟨desugar_litsNF l h.1, desugar_litsNF f h.2.1, desugar_litsNF r h.2.2⟩
+  | .filterCurrent c, h => by
+    simp only [INode.LitsNF] at h
+    simp only [desugar, Tree.LitsNF]
+    exact ⟨trivial, desugar_litsNF c h, trivial⟩
+  | .selectArraySingle l r, h => by
+    simp only [INode.LitsNF] at h
+    simp only [desugar, Tree.LitsNF, Tree.LitsNFL]
+    exact ⟨desugar_litsNF l h.1, desugar_litsNF r h.2, trivial⟩
+  | .selectObjectSingle l _ r, h => by
+    simp only [INode.LitsNF] at h
+    simp only [desugar, Tree.LitsNF, Tree.LitsNFF]
+    exact ⟨desugar_litsNF l h.1, desugar_litsNF r h.2, trivial⟩
+  | .not c, h | .negate c, h | .assertNumber c, h | .pruneArray c, h => by
+    simp only [INode.LitsNF] at h
+    simp only [desugar, Tree.LitsNF]
+    exact desugar_litsNF c h
+  | .flatten c, h | .objectValues c, h | .index c _, h | .slice c _ _, h | .sliceStep c _ _ _, h => by
+    simp only [INode.LitsNF] at h
+    simp only [desugar, Tree.LitsNF]
+    exact ⟨desugar_litsNF c h, trivial⟩
+  | .flattenAndProjectCurrent c, h | .projectArrayCurrent c, h | .projectObjectCurrent c, h => by
+    simp only [INode.LitsNF] at h
+    simp only [desugar, Tree.LitsNF]
+    exact ⟨trivial, desugar_litsNF c h⟩
+  | .selectArraySingleCurrent c, h => by
+    simp only [INode.LitsNF] at h
+    simp only [desugar, Tree.LitsNF, Tree.LitsNFL]
+    exact ⟨desugar_litsNF c h, trivial⟩
+  | .selectObjectSingleCurrent _ c, h => by
+    simp only [INode.LitsNF] at h
+    simp only [desugar, Tree.LitsNF, Tree.LitsNFF]
+    exact ⟨desugar_litsNF c h, trivial⟩
+  | .call _ args, h | .selectArrayCurrent args, h | .merge args, h | .notNull args, h | .zip args, h => by
+    simp only [INode.LitsNF] at h
+    simp only [desugar, Tree.LitsNF]
+    exact desugarList_litsNF args h
+  | .selectArray c fs, h => by
+    simp only [INode.LitsNF] at h
+    simp only [desugar, Tree.LitsNF]
+    exact ⟨desugar_litsNF c h.1, desugarList_litsNF fs h.2⟩
+  | .selectObject c fs, h => by
+    simp only [INode.LitsNF] at h
+    simp only [desugar, Tree.LitsNF]
+    exact ⟨desugar_litsNF c h.1, desugarFields_litsNF fs h.2⟩
+  | .selectObjectCurrent fs, h => by
+    simp only [INode.LitsNF] at h
+    simp only [desugar, Tree.LitsNF]
+    exact desugarFields_litsNF fs h
+  | .defineVariables vars child, h => by
+    simp only [INode.LitsNF] at h
+    simp only [desugar, Tree.LitsNF]
+    exact ⟨desugarFields_litsNF vars h.1, desugar_litsNF child h.2⟩
+theorem desugarList_litsNF : (ns : List INode) → INode.LitsNFL ns → Tree.LitsNFL (desugarList ns)
+  | [], _ => by simp [desugarList, Tree.LitsNFL]
+  | n :: ns, h => by
+    simp only [INode.LitsNFL] at h
+    simp only [desugarList, Tree.LitsNFL]
+    exact ⟨desugar_litsNF n h.1, desugarList_litsNF ns h.2⟩
+theorem desugarFields_litsNF : (fs : List (Bytes × INode)) → INode.LitsNFF fs → Tree.LitsNFF (desugarFields fs)
+  | [], _ => by simp [desugarFields, Tree.LitsNFF]
+  | (k, n) :: rest, h => by
+    simp only [INode.LitsNFF] at h
+    simp only [desugarFields, Tree.LitsNFF]
+    exact ⟨desugar_litsNF n h.1, desugarFields_litsNF rest h.2⟩
+end
+
+/-- **the evaluator never introduces a binary float**: on a float-free document, current value and environment, an
+    expression whose literals are float-free evaluates to a float-free value -/
+theorem ieval_noFloat {root : Val} (hr : NoFloat root) {n : INode} (hl : n.LitsNF) {cur : Val} (hc : NoFloat cur)
+    {env : Env} (he : EnvNF env) {w : Val} (hw : ieval root n cur env = .ok w) : NoFloat w := by
+  rw [ieval_desugar] at hw
+  exact seval_nf root hr (desugar n) cur env (desugar_litsNF n hl) hc he w hw
+
+theorem evaluate_noFloat {n : INode} (hl : n.LitsNF) {data : Val} (hd : NoFloat data) {w : Val}
+    (hw : evaluate n data = .ok w) : NoFloat w :=
+  ieval_noFloat hd hl hd (fun _ _ hm => by simp at hm) hw
+
+/-! ### JSON text gives float-free values -/
+
+mutual
+theorem parseValue_nf : ∀ (fuel depth : Nat) (s : Bytes) (v : Val) (r : Bytes),
+    Json.parseValue fuel depth s = some (v, r) → NoFloat v
+  | 0, _, _, _, _, h => by simp [Json.parseValue] at h
+  | fuel + 1, depth, s, v, r, h => by
+    unfold Json.parseValue at h
+    split at h
+    · simp at h
+    · simp at h; obtain ⟨rfl, _⟩ := h; simp
+    · simp at h; obtain ⟨rfl, _⟩ := h; simp
+    · simp at h; obtain ⟨rfl, _⟩ := h; simp
+    · simp only [Option.map_eq_some_iff] at h
+      obtain ⟨⟨b, r'⟩, _, h⟩ := h
+      simp at h; obtain ⟨rfl, _⟩ := h; simp
+    · split at h
+      · simp at h
+      · split at h
+        · simp at h; obtain ⟨rfl, _⟩ := h; simp [noFloat_arr]
+        · simp only [Option.map_eq_some_iff] at h
+          obtain ⟨⟨xs, r'⟩, hx, h⟩ := h
+          simp at h; obtain ⟨rfl, _⟩ := h
+          exact noFloat_arr.mpr (parseElems_nf fuel _ _ [] xs r' (by simp) hx)
+    · split at h
+      · simp at h
+      · split at h
+        · simp at h; obtain ⟨rfl, _⟩ := h; simp [noFloat_obj]
+        · simp only [Option.map_eq_some_iff] at h
+          obtain ⟨⟨kvs, r'⟩, hx, h⟩ := h
+          simp at h; obtain ⟨rfl, _⟩ := h
+          exact noFloat_obj.mpr (parseMembers_nf fuel _ _ [] kvs r' (by simp) hx)
+    · split at h
+      · simp only [Option.map_eq_some_iff] at h
+        obtain ⟨⟨n, r'⟩, _, h⟩ := h
+        simp at h; obtain ⟨rfl, _⟩ := h; simp
+      · simp at h
+theorem parseElems_nf : ∀ (fuel depth : Nat) (s : Bytes) (acc xs : List Val) (r : Bytes),
+    (∀ x ∈ acc, NoFloat x) → Json.parseElems fuel depth s acc = some (xs, r) → ∀ x ∈ xs, NoFloat x
+  | 0, _, _, _, _, _, _, h => by simp [Json.parseElems] at h
+  | fuel + 1, depth, s, acc, xs, r, hacc, h => by
+    unfold Json.parseElems at h
+    split at h
+    · simp at h
+    · next v r0 hv =>
+      have hvn := parseValue_nf fuel depth s v r0 hv
+      have hacc' : ∀ x ∈ acc ++ [v], NoFloat x := by
+        intro x hx
+        rcases List.mem_append.mp hx with hx | hx
+        · exact hacc x hx
+        · simp at hx; subst hx; exact hvn
+      split at h
+      · exact parseElems_nf fuel depth _ _ xs r hacc' h
+      · simp at h; obtain ⟨rfl, _⟩ := h; exact hacc'
+      · simp at h
+theorem parseMembers_nf : ∀ (fuel depth : Nat) (s : Bytes) (acc kvs : List (Bytes × Val)) (r : Bytes),
+    (∀ k x, (k, x) ∈ acc → NoFloat x) → Json.parseMembers fuel depth s acc = some (kvs, r) →
+    ∀ k x, (k, x) ∈ kvs → NoFloat x
+  | 0, _, _, _, _, _, _, h => by simp [Json.parseMembers] at h
+  | fuel + 1, depth, s, acc, kvs, r, hacc, h => by
+    unfold Json.parseMembers at h
+    split at h
+    · split at h
+      · simp at h
+      · split at h
+        · split at h
+          · simp at h
+          · next v r2 hv =>
+            have hvn := parseValue_nf fuel depth _ v r2 hv
+            split at h
+            · exact parseMembers_nf fuel depth _ _ kvs r (objInsert_nf hvn hacc) h
+            · simp at h; obtain ⟨rfl, _⟩ := h; exact objInsert_nf hvn hacc
+            · simp at h
+        · simp at h
+    · simp at h
+end
+
+/-- a decoded JSON document (or JSON literal) contains no binary float: numbers are kept as their text -/
+theorem decode_noFloat {s : Bytes} {v : Val} (h : Json.decode s = some v) : NoFloat v := by
+  unfold Json.decode at h
+  split at h
+  · next v' r hv =>
+    split at h
+    · simp at h; subst h; exact parseValue_nf _ _ _ _ _ hv
+    · simp at h
+  · simp at h
+
+theorem parseJSONLiteral_noFloat {s : Bytes} {v : Val} (h : parseJSONLiteral s = some v) : NoFloat v := by
+  unfold parseJSONLiteral at h
+  simp only at h
+  split at h
+  · simp at h
+  · exact decode_noFloat h
 
 end Jmes
